@@ -18,6 +18,8 @@
 #include "core/print_error.h"
 #include "core/tokens.h"
 
+#define MAX_NESTED_INCLUDES 64
+
 int include_add_path(AsmContext *asm_context, const char *paths)
 {
   int ptr = 0;
@@ -110,6 +112,16 @@ int include_parse(AsmContext *asm_context)
 printf("including file %s.\n", token);
 #endif
 
+  // A file that includes itself (directly or through other files) would
+  // recurse until the stack is gone.
+  static int include_depth = 0;
+
+  if (include_depth >= MAX_NESTED_INCLUDES)
+  {
+    print_error(asm_context, "Include files are nested too deeply");
+    return -1;
+  }
+
   write_list_file = asm_context->write_list_file;
   asm_context->write_list_file = 0;
 
@@ -163,7 +175,9 @@ printf("including file %s.\n", token);
     asm_context->tokens.filename = token;
     asm_context->tokens.line = 1;
 
+    include_depth++;
     ret = asm_context->assemble();
+    include_depth--;
 
     asm_context->tokens.line = oldline;
   }
